@@ -510,6 +510,6 @@ SUBS = [
 # objects with a history (reads that may fill caches, in-place writes): observables equal those of a fresh object
 from pbt import aged as _aged  # noqa: E402
 
-SUBS.append(_aged.sub("C13", quick=120))
+SUBS.append(_aged.sub("C13", quick=250))
 ASSUMPTIONS = list(ASSUMPTIONS) + ["aged sub-property: library results are a function of the public primary state "
                                    "(corners, n, names, units, bc, subregions, array, validity, labels, mapping, unit)"]
